@@ -345,7 +345,8 @@ impl<H: Hal, T: Transport> VirtIOSound<H, T> {
                 .as_ref()
                 .unwrap()
                 .get(jack_id as usize)
-                .unwrap()
+                // The list is empty if the device failed the jack info query during set up.
+                .ok_or(Error::IoError)?
                 .features,
         );
         if !jack_features.contains(JackFeatures::REMAP) {
